@@ -82,6 +82,16 @@ def gen_basisset(rng, tier):
                 ls = [l]
                 M = int(rng.choice([1, 1, 1, 2, 3, 4, 5, 6]))
             exps = np.sort(np.exp(rng.uniform(np.log(0.02), np.log(1e5), size=K)))[::-1]
+            if not shells and out and rng.random() < 0.25:
+                # the first block of an element repeats the LAST block of the element before it (same letter, same exponents):
+                # nothing may be merged across the element boundary
+                prev_ = out[-1]["shells"][-1]
+                kind, ls = prev_["kind"], list(prev_["ls"])
+                M = 2 if kind == "SP" else M
+                exps = np.array(prev_["e"])
+                K = len(exps)
+            elif rng.random() < 0.15 and K >= 2:
+                exps = exps[rng.permutation(K)]  # primitives listed in no particular order
             if shells and rng.random() < 0.2:
                 # the block repeats the exponents of the block before it (P then SP, SP then P, D then D ...): blocks of one
                 # angular momentum on identical exponents are what the Gaussian94 reader merges, everything else stays apart
